@@ -598,6 +598,9 @@ class Lifter:
                     if self.perm is not None and isinstance(y, tuple) and y[0] == 'add' and y[1] == ld0(self.part) and y[2] == -1:
                         if is_ld(x) and x[2][0] == 'fld' and x[2][2] == 'm_open_list_position':
                             return ('IS_LAST_USED', (self.elem_entity(x[2][1]), 0), op == '==')
+                        if isinstance(x, tuple) and x[:1] == ('rng',):
+                            # the drawn position itself compared with the last in-use position
+                            return ('IS_LAST_USED', (Ent('RANDPOS', x[1], 0, ('ld', 0, ('idx', self.perm, x))), 0), op == '==')
                 if isinstance(a, tuple) and isinstance(b, tuple) and a[0] == 'lv' and b[0] == 'lv':
                     return ('LV_EQ', (a[1], b[1]), op == '==')
         return ('OTHER', (term,), True)
@@ -610,6 +613,11 @@ class Lifter:
             containers[self.order] = 'order'
         for t, (an, ak) in self.aux.items():
             containers[t] = an
+        if op in ('==', '!=') and self.part is not None and self.order is not None:
+            for x, y in ((a, b), (b, a)):
+                # the free/used partition iterator at end(): no free slot left, i.e. the cache is full (size == capacity, RI)
+                if x == ld0(self.part) and isinstance(y, tuple) and len(y) > 2 and y[0] == 'q' and y[1] in ('end', 'cend') and y[2] == self.order:
+                    return ('FULL', (), op == '==')
         if op in ('==', '!='):
             for x, y in ((a, b), (b, a)):
                 # it != ttl.upper_bound(now) with `it` walking the deadline-ordered ttl structure from its head: the node is in the
@@ -798,6 +806,60 @@ class Segment:
         self._aux_alias_pass()
         if parent is None and loop is None:
             self._sizediff_pass()
+
+    def countdown_guard(self, lp, segs, exits):
+        """`for (size_t visited = 0, in_use = m_used_size; visited < in_use; ++visited) { ...removes one entry or leaves... }`: every
+        completed iteration steps the local counter once and removes exactly one entry, so `in_use - visited` is the number of entries
+        still stored: the guard `visited < in_use` is the non-emptiness test (and its failure: nothing is left).  The snapshot has to be
+        the element counter as it was when the loop was entered; comparing with the live member is a different loop."""
+        L = self.L
+        if L.counter is None:
+            return segs, exits
+        guard = None
+        for sg in segs + exits:
+            for c in sg.conds:
+                raw = c[4]
+                if c[0] == 'OTHER' and isinstance(raw, tuple) and len(raw) == 4 and raw[0] == 'cmp' and raw[1] in ('<', '>', '!='):
+                    a, b = (raw[2], raw[3]) if raw[1] != '>' else (raw[3], raw[2])
+                    if isinstance(a, tuple) and a[:1] == ('lv',) and is_ld(b) and b[2] == L.counter and b[1] < 0:
+                        guard = (a[1], b)
+        if guard is None:
+            return segs, exits
+        name, snap = guard
+        # the counter starts at 0 and the snapshot is taken right before the loop
+        start = None
+        for e in self.effects:
+            if e.kind == 'LOCAL' and isinstance(e.loc, tuple) and len(e.loc) > 1 and e.loc[1] == name:
+                start = e.val
+        if start != ('int', 0) or snap[1] != -1:
+            return segs, exits
+        for sg in segs:
+            steps = [e for e in sg.effects if e.kind == 'LOCAL' and isinstance(e.loc, tuple) and len(e.loc) > 1 and e.loc[1] == name]
+            cnts = [e for e in sg.effects if e.kind == 'CNT']
+            if sg.loops:
+                return segs, exits
+            if sg.status == 'continue':
+                if len(steps) != 1 or not (isinstance(steps[0].val, tuple) and steps[0].val[:1] == ('add',) and steps[0].val[2] == 1):
+                    return segs, exits
+                if len(cnts) != 1 or cnts[0].delta != -1:
+                    return segs, exits
+            elif steps or cnts or sg.state_effects():
+                return segs, exits
+
+        def is_guard(c):
+            raw = c[4]
+            if not (c[0] == 'OTHER' and isinstance(raw, tuple) and len(raw) == 4 and raw[0] == 'cmp'):
+                return None
+            a, b = (raw[2], raw[3]) if raw[1] != '>' else (raw[3], raw[2])
+            if isinstance(a, tuple) and a[:2] == ('lv', name) and b == snap and raw[1] in ('<', '>', '!='):
+                return bool(c[5])      # truth of `visited < in_use`
+            return None
+        for sg in segs + exits:
+            for j, c in enumerate(sg.conds):
+                g = is_guard(c)
+                if g is not None:
+                    sg.conds[j] = ('NONEMPTY', (), g) + tuple(c[3:])
+        return segs, exits
 
     def scan_bound_guard(self, raw):
         """`it != B` where `it` walks the ttl structure from its head and B is where an effect-free scan of that structure stopped: the
@@ -1168,6 +1230,7 @@ class Segment:
                 exits = [x for x in exits if feasible(x)[0]]
                 segs, exits = flag_controlled(segs, exits)
                 segs, exits = self.sweep_as_head(lp, segs, exits)
+                segs, exits = self.countdown_guard(lp, segs, exits)
                 self.loops.append((lp, segs))
                 self.loop_exits[id(lp)] = exits
                 self.order.append(('loop', len(self.loops) - 1))
